@@ -161,15 +161,15 @@ fn seq_text(alpha: &[&str], mut idx: u64, len: usize) -> String {
     parts.join(" ")
 }
 
-const LEX_CHARS: [char; 17] = [
-    '<', '=', '>', '-', '!', '&', '|', 'a', '1', '\'', '"', '{', '}', '_', ' ', '\u{e9}', '\u{663}',
+const LEX_CHARS: [char; 18] = [
+    '<', '=', '>', '-', '!', '&', '|', 'a', '1', '\'', '"', '{', '}', '_', ' ', '\u{e9}', '\u{663}', '\\',
 ];
 
-pub const SPELLINGS: [&str; 64] = [
+pub const SPELLINGS: [&str; 66] = [
     "a", "b", "x1", "a'", "_", "\u{e9}", "0", "1", "2", "007", "18446744073709551615", "{r}", "{a'}", "&", "*", "and",
     "|", "+", "or", "-", "!", "not", "^", "xor", "nor", "nand", "=>", "implies", "in", "<=", "<=>", "iff", "eq", "if",
     "then", "else", "exists", "any", "forall", "all", "=", ">=", ">", "<", "(", ")", "[", "]", ",", "false", "true",
-    "lfp", "mu", "gfp", "nu", "#", "\"c\"", "@", "$", "{", "}", "\"", "mand", "nott",
+    "lfp", "mu", "gfp", "nu", "#", "\"c\"", "@", "$", "{", "}", "\"", "mand", "nott", "\\", "\"x\\\"",
 ];
 
 fn mutate_tokens(words: &mut Vec<String>, t: &mut Tape) {
@@ -221,7 +221,7 @@ fn repo_texts() -> Vec<String> {
 
 pub fn run(ctx: &mut Ctx) -> Result<(), Violation> {
     ctx.rule = "cases = input texts. (1) bounded-exhaustive: every sequence of <= L tokens over the full 33-token alphabet (a b 0 2 {r} & | - ^ nor nand => <= <=> if then else exists forall = >= > < ( ) [ ] , false true lfp gfp #), L = 4 quick / 5 thorough, every sequence of exactly 5 (quick) / 6 (thorough) tokens over a reduced 19-token alphabet, and (thorough) of exactly 8 tokens over a 9-token alphabet, space separated; \
-                (2) lexer: every string of <= 5 characters over `< = > - ! & | a 1 ' \" { } _ space e-acute arabic-three`; (3) random token soups over all spellings/aliases/decoys, generated valid formulas under 1-3 token-level mutations (delete, insert, replace, swap, duplicate, truncate), decorated renderings of valid formulas, and the repository's formula files with mutations. \
+                (2) lexer: every string of <= 5 characters over `< = > - ! & | a 1 ' \" { } _ space e-acute arabic-three backslash`, and every string of <= 2 (thorough 3) characters over all of ASCII plus six non-ASCII characters placed between two identifiers; (3) random token soups over all spellings/aliases/decoys, generated valid formulas under 1-3 token-level mutations (delete, insert, replace, swap, duplicate, truncate), decorated renderings of valid formulas, and the repository's formula files with mutations. \
                 Oracle: reference lexer + LL(1) recursive-descent parser without back-tracking (harness code): tokens equal one by one; reference rejects <=> ParsedFormula::new returns Err; when both accept the trees are structurally equal (variables by name, list lengths, operator kinds, numbers); a panic is a violation. \
                 Non-trivial = accepted with >= 3 tokens, or rejected only after a valid prefix of >= 2 tokens; distinct by text."
         .to_string();
@@ -284,7 +284,42 @@ pub fn run(ctx: &mut Ctx) -> Result<(), Violation> {
         }
         Ok(())
     });
-    ctx.stage("all-strings-len<=5-lexer-alphabet17", true, r)?;
+    ctx.stage("all-strings-len<=5-lexer-alphabet18", true, r)?;
+
+    // (2b) every string of <= 2 (thorough 3) characters over ALL of ASCII plus a few non-ASCII characters
+    let mut full: Vec<char> = (0u8..128).map(|b| b as char).collect();
+    full.extend(['\u{e9}', '\u{663}', '\u{b2}', '\u{20ac}', '\u{301}', '\u{200d}']);
+    let flen = ctx.tier.pick(2usize, 3usize);
+    let mut total = 0u64;
+    for l in 0..=flen {
+        total += (full.len() as u64).pow(l as u32);
+    }
+    let r = par_exhaustive(ctx, total, |mut i, st| {
+        let mut len = 0usize;
+        loop {
+            let n = (full.len() as u64).pow(len as u32);
+            if i < n {
+                break;
+            }
+            i -= n;
+            len += 1;
+        }
+        let mut s = String::new();
+        for _ in 0..len {
+            s.push(full[(i % full.len() as u64) as usize]);
+            i /= full.len() as u64;
+        }
+        // embedded between two identifiers so that separators / comments show their effect
+        let text = format!("a{}b", s);
+        let d = diff_text(text.as_bytes())?;
+        st.eval();
+        st.class("full-ascii-string-between-identifiers");
+        if d.ntokens >= 2 && st.nontrivial(fnv(text.as_bytes())) {
+            st.nt_sample(|| json!({"kind": "text", "text": text}));
+        }
+        Ok(())
+    });
+    ctx.stage(&format!("all-strings-len<={}-full-ascii-between-identifiers", flen), true, r)?;
 
     // (3a) repo files and their mutations
     let files = repo_texts();
